@@ -505,48 +505,57 @@ structure Homogeneous (H : Horiz K) : Prop where
   div_smul : ∀ (a : K) (x y : List K),
     H.divCosLat (smul a x) (smul a y) = smul a (H.divCosLat x y)
 
-/-- the wind round trip `(ζ, δ) → cos_lat_u → u → (ζ, δ)` is the identity on this state (true of
- the real transforms when the top two total wavenumbers of `ζ, δ` vanish) -/
+/-- the wind round trip `(ζ, δ) → cos_lat_u → u = cos_lat_u / cos_lat² → (ζ, δ)` is the identity on this
+ state, on a slice WITHOUT pole nodes (`cos_lat ≠ 0` at every node: the side condition of the division
+ by `cos_lat²` inside `secSq` is part of the definition, so the totalised `x / 0 = 0` can never
+ satisfy it).  It is true of the real transforms (measured, not proved) when the spare top total
+ wavenumber `l = L − 1` of `ζ, δ` is clipped (vanishes); it FAILS for states with energy at `l = L − 1`
+ (measured on every run: the drag then deviates from `−kv·(ζ, δ)` by O(1) at `l = L − 1`, by 0.1–0.4
+ at `l = L − 3, L − 5, …`, and vorticity leaks into the divergence tendency at `l = L − 2, L − 4, …`) -/
 def WindRoundTrip (H : Horiz K) (vor div : List K) : Prop :=
+  (∀ c ∈ H.cosLat, c ≠ 0) ∧
   H.curlCosLat (H.toModal (secSq H.cosLat (H.cosLatU vor div).1))
       (H.toModal (secSq H.cosLat (H.cosLatU vor div).2)) = vor ∧
   H.divCosLat (H.toModal (secSq H.cosLat (H.cosLatU vor div).1))
       (H.toModal (secSq H.cosLat (H.cosLatU vor div).2)) = div
 
-/-- T20.4: `(ζ̇, δ̇) = −kv · (ζ, δ)` on every level, for every state on which the wind round trip
- is exact -/
+/-- T20.4: `(ζ̇, δ̇) = −kv · (ζ, δ)` on every level, on every slice without pole nodes (`hc`: the named
+ side condition of the division by `cos_lat²`; also carried by `WindRoundTrip`) and for every state on
+ which the wind round trip is exact -/
 theorem drag_tendency (H : Horiz K) (P : HSParams K) (sigma tref : K) (lsp vor div tvar : List K)
-    (hH : Homogeneous H) (hR : WindRoundTrip H vor div) :
+    (_hc : ∀ c ∈ H.cosLat, c ≠ 0) (hH : Homogeneous H) (hR : WindRoundTrip H vor div) :
     (explicitTermsLevel H P sigma tref lsp vor div tvar).vorticity
         = smul (-(kv P.kf P.sigmaB sigma)) vor ∧
     (explicitTermsLevel H P sigma tref lsp vor div tvar).divergence
         = smul (-(kv P.kf P.sigmaB sigma)) div := by
   unfold explicitTermsLevel
   simp only [velTendency_eq_smul, hH.toModal_smul, hH.curl_smul, hH.div_smul]
-  exact ⟨by rw [hR.1], by rw [hR.2]⟩
+  exact ⟨by rw [hR.2.1], by rw [hR.2.2]⟩
 
-/-- no drag above the boundary layer: the vorticity and divergence tendencies are exactly zero -/
+/-- no drag above the boundary layer: the vorticity and divergence tendencies are exactly zero (pole-free
+ slice, exact wind round trip) -/
 theorem drag_zero_above [IsStrictOrderedRing K] (H : Horiz K) (P : HSParams K) (sigma tref : K)
-    (lsp vor div tvar : List K) (hH : Homogeneous H) (hR : WindRoundTrip H vor div)
-    (hb : P.sigmaB < 1) (h : sigma ≤ P.sigmaB) :
+    (lsp vor div tvar : List K) (hc : ∀ c ∈ H.cosLat, c ≠ 0) (hH : Homogeneous H)
+    (hR : WindRoundTrip H vor div) (hb : P.sigmaB < 1) (h : sigma ≤ P.sigmaB) :
     (explicitTermsLevel H P sigma tref lsp vor div tvar).vorticity = List.replicate vor.length 0 ∧
     (explicitTermsLevel H P sigma tref lsp vor div tvar).divergence
       = List.replicate div.length 0 := by
-  obtain ⟨h1, h2⟩ := drag_tendency H P sigma tref lsp vor div tvar hH hR
+  obtain ⟨h1, h2⟩ := drag_tendency H P sigma tref lsp vor div tvar hc hH hR
   rw [h1, h2, kv_eq_zero_above P.kf P.sigmaB sigma hb h, neg_zero, smul_zero_eq, smul_zero_eq]
   simp [List.map_const']
 
-/-- the drag is dissipative: `⟨ζ, ζ̇⟩ + ⟨δ, δ̇⟩ = −kv (‖ζ‖² + ‖δ‖²) ≤ 0` on every level -/
+/-- the drag is dissipative: `⟨ζ, ζ̇⟩ + ⟨δ, δ̇⟩ = −kv (‖ζ‖² + ‖δ‖²) ≤ 0` on every level (pole-free slice,
+ exact wind round trip, `kf ≥ 0`) -/
 theorem drag_dissipative [IsStrictOrderedRing K] (H : Horiz K) (P : HSParams K) (sigma tref : K)
-    (lsp vor div tvar : List K) (hH : Homogeneous H) (hR : WindRoundTrip H vor div)
-    (hk : 0 ≤ P.kf) :
+    (lsp vor div tvar : List K) (hc : ∀ c ∈ H.cosLat, c ≠ 0) (hH : Homogeneous H)
+    (hR : WindRoundTrip H vor div) (hk : 0 ≤ P.kf) :
     (List.zipWith (· * ·) vor (explicitTermsLevel H P sigma tref lsp vor div tvar).vorticity).sum
       + (List.zipWith (· * ·) div (explicitTermsLevel H P sigma tref lsp vor div tvar).divergence).sum
       = -(kv P.kf P.sigmaB sigma) * ((vor.map fun x => x * x).sum + (div.map fun x => x * x).sum) ∧
     (List.zipWith (· * ·) vor (explicitTermsLevel H P sigma tref lsp vor div tvar).vorticity).sum
       + (List.zipWith (· * ·) div (explicitTermsLevel H P sigma tref lsp vor div tvar).divergence).sum
       ≤ 0 := by
-  obtain ⟨h1, h2⟩ := drag_tendency H P sigma tref lsp vor div tvar hH hR
+  obtain ⟨h1, h2⟩ := drag_tendency H P sigma tref lsp vor div tvar hc hH hR
   rw [h1, h2, sum_mul_smul, sum_mul_smul, ← mul_add]
   refine ⟨rfl, ?_⟩
   have hkv := kv_nonneg P.kf P.sigmaB sigma hk
@@ -658,6 +667,14 @@ example : WindRoundTrip hId [1, 2] [3, -1] := by
   unfold WindRoundTrip hId secSq
   simp [powN]
 
+/-- the pole-free conjunct is not decoration: on a slice WITH a pole node the old (unguarded) equations
+ hold through `x / 0 = 0` for the zero transforms, but `WindRoundTrip` is false -/
+example : ¬ WindRoundTrip
+    { toModal := id, toNodal := id, curlCosLat := fun x _ => x, divCosLat := fun _ y => y,
+      cosLatU := fun vor div => (vor, div), cosLat := [0, 1], lat := [0, 0] : Horiz ℝ } [0, 2] [0, -1] := by
+  intro h
+  exact h.1 0 (by simp) rfl
+
 /-! ### a non-toy witness for the hypotheses of T20.4
 
  A transform record on three nodes / three modes with
@@ -711,20 +728,33 @@ theorem hQ_cosLat_ne_zero : ∀ c ∈ hQ.cosLat, c ≠ 0 := by
 
 /-- the wind round trip on EVERY state whose top mode is clipped -/
 theorem hQ_windRoundTrip (a b c d : ℝ) : WindRoundTrip hQ [a, b, 0] [c, d, 0] := by
-  unfold WindRoundTrip hQ secSq g
+  refine ⟨hQ_cosLat_ne_zero, ?_⟩
+  unfold hQ secSq g
   simp [powN]
   refine ⟨⟨?_, ?_⟩, ?_, ?_⟩ <;> ring
 
 /-- and not on a state with energy in the top mode: the restriction is necessary -/
 theorem hQ_not_windRoundTrip : ¬ WindRoundTrip hQ [0, 0, 1] [0, 0, 0] := by
-  unfold WindRoundTrip hQ secSq g
+  intro h
+  have h2 := h.2
+  revert h2
+  unfold hQ secSq g
   simp [powN]
 
 /-- T20.4 instantiated on it: in the boundary layer (`sigma = 17/20 > sigma_b = 7/10`, `kv = kf/2`) the
  drag of a state with non-zero vorticity and divergence is `−kv` times the state -/
 example (P : HSParams ℝ) (tref : ℝ) (lsp tvar : List ℝ) :=
-  drag_tendency hQ P (17 / 20) tref lsp [1, 2, 0] [3, -1, 0] tvar hQ_homogeneous
+  drag_tendency hQ P (17 / 20) tref lsp [1, 2, 0] [3, -1, 0] tvar hQ_cosLat_ne_zero hQ_homogeneous
     (hQ_windRoundTrip 1 2 3 (-1))
+
+/-- the drag is dissipative and vanishes above the boundary layer on the same non-trivial state -/
+example (P : HSParams ℝ) (tref : ℝ) (lsp tvar : List ℝ) (hk : 0 ≤ P.kf) :=
+  drag_dissipative hQ P (17 / 20) tref lsp [1, 2, 0] [3, -1, 0] tvar hQ_cosLat_ne_zero hQ_homogeneous
+    (hQ_windRoundTrip 1 2 3 (-1)) hk
+
+example (P : HSParams ℝ) (tref : ℝ) (lsp tvar : List ℝ) (hb : P.sigmaB < 1) (h : 1 / 2 ≤ P.sigmaB) :=
+  drag_zero_above hQ P (1 / 2) tref lsp [1, 2, 0] [3, -1, 0] tvar hQ_cosLat_ne_zero hQ_homogeneous
+    (hQ_windRoundTrip 1 2 3 (-1)) hb h
 
 example (kf sigmaB sigma : ℝ) (xs : List ℝ) :=
   drag_eq_neg_kv_smul kf sigmaB sigma hQ.cosLat xs hQ_cosLat_ne_zero
